@@ -16,7 +16,7 @@ CHECKS = {
          "Names limited to the universes; murmur3 implementation (spaolacci) shared with the code under test. hashBits sweep needs the verif-tagged export hooks.",
          "DESIGN.md §5 C02"),
  "C03": ("bounded-exhaustive tree x path x selector enumeration vs path-resolution model",
-         "Every tree with <= 4/5 nodes over {single/multi-block file, symlink, plain dir, HAMT dir with colliding names}, every path to every node and its slash/segment perturbations, 4 target selectors, matchPath on/off: the selector built by UnixFSPathSelectorBuilder is compiled and run with traversal.WalkMatching and the ordered visitor calls are compared with an independent literal-segment resolution. A known finding (matchPath=true never descends) is reported as KNOWN-FINDING.",
+         "Every tree with <= 4/5 nodes over {single/multi-block file, symlink, plain dir (sorted and unsorted block), HAMT dir with colliding names; entry names incl. white-space variants, '..', '%2F' and names that parse as integers}, every path to every node and its slash/segment perturbations, 4 target selectors, matchPath on/off: the selector built by UnixFSPathSelectorBuilder is compiled and run with traversal.WalkMatching and the ordered visitor calls are compared with an independent literal-segment resolution. A known finding (matchPath=true never descends) is reported as KNOWN-FINDING.",
          "Traversal semantics of the pinned go-ipld-prime v0.21.0.",
          "DESIGN.md §5 C03"),
  "C06": ("bounded-exhaustive enumeration + exhaustive single-block withholding + deviation-bounded fault DFS",
@@ -36,11 +36,11 @@ CHECKS = {
          "Build menu: files 0..10 chunks at w in {2,3}, symlink, plain/sharded dirs, recursive import, quick builder (ordering only).",
          "DESIGN.md §5 C16"),
  "C17": ("stateless model checking of thread interleavings (cooperative scheduler, iterative preemption bounding) + happens-before race oracle",
-         "Real goroutines run one visible operation at a time (instrumented accesses to struct fields and package-level variables, modelled locks/Once/atomics, block loads); all schedules within iterated preemption bounds (2 quick, 3 thorough) of 11 scenarios on one shared node are executed; every execution is checked for data races (co-enabled conflicting accesses, vector-clock analysis), result equality with the solo run, panics and deadlocks. A separate free-running -race pass is auxiliary evidence.",
+         "Real goroutines run one visible operation at a time (instrumented accesses to struct fields, the map objects held in map-typed fields and package-level variables, modelled locks/Once/atomics, block loads); all schedules within iterated preemption bounds (2 quick, 3 thorough) of 11 scenarios on one shared node are executed; every execution is checked for data races (co-enabled conflicting accesses, vector-clock analysis), result equality with the solo run, panics and deadlocks. A separate free-running -race pass is auxiliary evidence.",
          "Sequential consistency at the granularity of hooked accesses; weak-memory effects out of reach. Scheduling points restricted to sites found shared (fixpoint).",
          "DESIGN.md §5 C17"),
  "C18": ("bounded-exhaustive on-disk tree enumeration vs independent filesystem walk",
-         "Every tree with <= 5/6 nodes over {dir, empty file, file, relative/absolute/dangling symlink} is created on a scratch directory, imported and read back through Reify; names, bytes and link targets are compared with an Lstat/ReadDir/Readlink/ReadFile walk; FIFOs and sockets at every position must be rejected; threshold-straddling and multi-chunk cases.",
+         "Every tree with <= 5/6 nodes over {dir, empty file, file, relative/absolute/dangling symlink with targets not in cleaned form} is created on a scratch directory, imported and read back through Reify; names, bytes and link targets are compared with an Lstat/ReadDir/Readlink/ReadFile walk; FIFOs and sockets at every position must be rejected; threshold-straddling and multi-chunk cases.",
          "Scratch directory under /dev/shm or $TMPDIR, removed per case.",
          "DESIGN.md §5 C18"),
  "C19": ("stateless deviation-bounded DFS over the answers of the generators' random source",
@@ -56,7 +56,7 @@ CHECKS = {
          "Reference = gogo-protobuf codec of boxo's unixfs_pb. Values limited to the boundary menus.",
          "DESIGN.md §5 C09"),
  "C13": ("bounded-exhaustive byte strings + hostile DAG menus under recover() and step budget",
-         "Every byte string up to length 4/5 over a protobuf-aware alphabet through the three decoders; every root block from payload x link menus (bitfield longer/shorter, fanout mismatch between parent and child, short names, lying sizes, missing blocks, wrong types) reified lazily and with preload and exercised through every node operation; a panic, a non-terminating iterator/read or a step-budget overrun is a violation.",
+         "Every byte string up to length 4/5 over a protobuf-aware alphabet through the three decoders; every root block from payload x link menus (bitfield longer/shorter, fanout mismatch between parent and child, short names, lying sizes, missing blocks, wrong types) reified lazily and with preload and exercised through every node operation; single-child chains past the hash width and diamond chains (k blocks, 2^k paths: Length/preload must load O(k) blocks); a panic, a non-terminating iterator/read or a step-budget overrun is a violation.",
          "DAG depth <= 3, <= 3 links; work bound is a generous step budget on small DAGs, not an asymptotic statement.",
          "DESIGN.md §5 C13"),
  "C14": ("bounded-exhaustive dispatch-table enumeration",
@@ -80,7 +80,7 @@ CHECKS = {
          "Universe of 8 (quick) / 11 (thorough) names; canonical state key is the content address (exact). Reference = boxo v0.24.0.",
          "DESIGN.md §5 C08"),
  "C11": ("bounded-exhaustive enumeration vs recursive tree-sum model",
-         "Every small file shape (incl. equal chunks where de-duplicated storage < tree sum), every universe subset as sharded/plain directory and directories of builder-written files: returned size, every link Tsize, every interior FileSize/BlockSizes are recomputed from the stored blocks by an independent parser.",
+         "Every small file shape (incl. equal chunks where de-duplicated storage < tree sum), every universe subset as sharded/plain directory and directories of builder-written files, quick-builder trees with 1..4-chunk files (every Node.Size()): returned size, every link Tsize, every interior FileSize/BlockSizes are recomputed from the stored blocks by an independent parser.",
          "Model = own dag-pb parser + gogo unixfs_pb over stored blocks.",
          "DESIGN.md §5 C11"),
  "C20": ("bounded-exhaustive enumeration with ordered request log vs independent DFS",
